@@ -7,6 +7,7 @@ import (
 	"fmt"
 	"os"
 	"sort"
+	"strings"
 	"sync"
 
 	evalfilter "github.com/skx/evalfilter/v2"
@@ -95,9 +96,12 @@ func concRuns(path string) {
 				wg.Add(1)
 				go func(g int) {
 					defer wg.Done()
-					src := s.Scripts[g%len(s.Scripts)]
+					tmpl := s.Scripts[g%len(s.Scripts)]
 					acc := ""
 					for r := 0; r < s.Rounds; r++ {
+						// @U@ becomes text no other evaluator of this process has used: a pattern
+						// containing it has never been compiled before (no warm caches)
+						src := strings.ReplaceAll(tmpl, "@U@", fmt.Sprintf("q%dx%dx%d", i, g, r))
 						e := evalfilter.New(src)
 						e.AddFunction("t", func(args []object.Object) object.Object { return &object.Void{} })
 						if err := e.Prepare(); err != nil {
